@@ -13,6 +13,7 @@ CONSTANTS
   Dev_RestoreNoResume = FALSE
   Dev_RecreateErrorLost = TRUE
   Dev_ArmIgnoresClose = TRUE
+  Dev_DrainDropsLoss = TRUE
   Hist = FALSE
 SPECIFICATION TSpec
 CONSTRAINT HighWater
